@@ -119,8 +119,14 @@ def run(prog, chk):
         require_chain(chk, "C08.chain", f, "*" + out, stores_through_param(f, out), gs)
     fa = prog.fn("createExtendedSignature", "net_async.c")
     out = [p["n"] for p in fa.params if p["t"].endswith("KSI_Signature **")][0]
+    hp = fa.params[0]["n"]
+    # the asynchronous variant must make the same checks as the blocking one (sibling agreement): in particular the reply's calendar
+    # chain has to agree with the chain the signature already has before it replaces it
     require_chain(chk, "C08.chain", fa, "*" + out, stores_through_param(fa, out),
-                  [g_ok("KSI_SignatureBuilder_applyCalendarHashChain"), g_ok("KSI_SignatureBuilder_close"), g_ok("KSI_Signature_verifyWithPolicy")])
+                  [g_any(g_null(hp + "->signature->calendarChain"),
+                         g_ok("KSI_CalendarHashChain_verifyCompatibilityTo",
+                              arg_prov(r"param:%s->signature->calendarChain" % hp, r"KSI_ExtendResp_getCalendarHashChain\(.*\)@1"))),
+                   g_ok("KSI_SignatureBuilder_applyCalendarHashChain"), g_ok("KSI_SignatureBuilder_close"), g_ok("KSI_Signature_verifyWithPolicy")])
 
     # ------------------------------------------------------------------ clone discipline
     fo = prog.fn("KSI_SignatureBuilder_openFromSignature", "signature_builder.c")
